@@ -27,6 +27,7 @@ RULE = (
     "recording fake pool saw close+join exactly once iff close_pool, never before exit; the injected exception propagates "
     "unchanged. Non-trivial = depth >= 2 with an injected exception."
 )
+RULE += " " + ('Pairs of pool handlers may be created before either is entered (then entered nested).')
 ASSUMPTIONS = [
     "the pool is a recording fake with map/close/join (no processes are started)",
     "user callables accept map_fn, as enable_pool documents",
